@@ -163,6 +163,36 @@ func ruleTimeoutApplied(r *Run) {
 		return
 	}
 	r.ok("(*Mux).serveGRPC/with-timeout", wt.Pos(), "context.WithTimeout(ctx, decodeTimeout(header))")
+	// … on every path: once the header decoded, the handler is not reached without passing that WithTimeout
+	// (a test like `if timeout > 0` in between drops the deadline of the legal value 0, which must expire at once)
+	{
+		hf := p.StructField("handler", "handler")
+		isWT := func(x ssa.Instruction) bool {
+			c, ok := x.(*ssa.Call)
+			if !ok || calleeName(c) != "context.WithTimeout" {
+				return false
+			}
+			for _, o := range p.origins(c.Call.Args[1], originOpts{}) {
+				if ex, ok := o.(*ssa.Extract); ok && ex.Tuple == ssa.Value(dec) && ex.Index == 0 {
+					return true
+				}
+			}
+			return false
+		}
+		var hit ssa.Instruction
+		q := pathQuery{fn: fn, start: dec, barrier: isWT, target: func(x ssa.Instruction) bool {
+			if c, ok := x.(ssa.CallInstruction); ok && hf != nil && calledField(c) == hf {
+				hit = x
+				return true
+			}
+			return false
+		}}
+		if w, _ := q.find(); w != nil {
+			r.bad("(*Mux).serveGRPC/with-timeout-on-every-path", hit.Pos(), "after grpc-timeout was decoded the handler can be reached without context.WithTimeout(…, decoded) (%s): for some decoded values (e.g. 0, which must expire immediately) the handler runs without the client's deadline", p.describePath(w))
+		} else {
+			r.ok("(*Mux).serveGRPC/with-timeout-on-every-path", wt.Pos(), "every path from the decoded header to the handler invocation installs the decoded timeout")
+		}
+	}
 	// the stream's ctx descends from it
 	inChain := false
 	for _, st := range p.storesToField(nil, "streamGRPC", "ctx") {
